@@ -758,25 +758,21 @@ func (l *lexer) lexHeredoc() action {
 // readHeredocs reads the bodies of the pending here-documents. It
 // returns false when lexing cannot continue.
 func (l *lexer) readHeredocs() bool {
-	find := func(r *ast.Redir, delim string) bool {
-		for i := len(l.word) - 1; i >= 0; i-- {
-			if l.word[i].Pos().Col() == 1 {
-				s := l.print(l.word[i:])
-				if r.Op == "<<-" {
-					// the delimiter line may be indented with tabs
-					s = strings.TrimLeft(s, "\t")
-				}
-				if strings.ContainsRune(s, '\n') {
-					break
-				} else if s == delim {
-					r.Heredoc = l.word[:i]
-					r.Delim = l.word[i:]
-					l.word = nil
-					return true
-				}
-			}
+	// find reports whether the line that starts at l.word[i] (lines joined
+	// by <backslash><newline> are one line) is the delimiter line.
+	find := func(r *ast.Redir, delim string, i int) bool {
+		s := l.print(l.word[i:])
+		if r.Op == "<<-" {
+			// the delimiter line may be indented with tabs
+			s = strings.TrimLeft(s, "\t")
 		}
-		return false
+		if s != delim || (i < len(l.word) && l.word[i].Pos().Col() != 1) {
+			return false
+		}
+		r.Heredoc = l.word[:i:i]
+		r.Delim = l.word[i:]
+		l.word = nil
+		return true
 	}
 	for h := l.heredoc.pop(); h != nil; h = l.heredoc.pop() {
 		l.mark(0)
@@ -793,12 +789,14 @@ func (l *lexer) readHeredocs() bool {
 		}
 		// token → string
 		delim := l.print(word)
+		// index of the first part of the current line
+		start := 0
 	Heredoc:
 		for {
 			r, err := l.read()
 			if err != nil {
 				if !l.heredoc.exists() {
-					if l.lit(); find(h, delim) {
+					if l.lit(); find(h, delim, start) {
 						return false
 					}
 				}
@@ -808,7 +806,7 @@ func (l *lexer) readHeredocs() bool {
 			switch {
 			case r == '\n':
 				// <newline>
-				if l.lit(); find(h, delim) {
+				if l.lit(); find(h, delim, start) {
 					break Heredoc
 				}
 				// store <newline>
@@ -829,6 +827,7 @@ func (l *lexer) readHeredocs() bool {
 					l.lit()
 				}
 				l.mark(0)
+				start = len(l.word)
 			case !quoted:
 				switch r {
 				case '\\':
